@@ -96,6 +96,13 @@ class SymReal:
     Every denominator factor is positive under the path condition, so comparisons are posed
     cross-multiplied.  `pos` holds the ids of factors known to be positive; sign is a whole-value tag
     ('+', '0+' or None)."""
+    # immutable value object: copying (copy.copy / copy.deepcopy, e.g. a deep copy of an object array) yields the same scalar
+    def __copy__(self):
+        return self
+
+    def __deepcopy__(self, memo):
+        return self
+
 
     __slots__ = ("c", "num", "den", "sign")
 
@@ -616,6 +623,13 @@ def sym_max(a, b):
 
 class SymInt:
     """Symbolic mathematical integer (Python int semantics)."""
+    # immutable value object: copying (copy.copy / copy.deepcopy, e.g. a deep copy of an object array) yields the same scalar
+    def __copy__(self):
+        return self
+
+    def __deepcopy__(self, memo):
+        return self
+
 
     __slots__ = ("z",)
 
@@ -761,6 +775,13 @@ class SymInt:
 class LogAtom:
     """A log-likelihood-like unknown  ell = D * log(a),  a > 0 a z3 Real.
     Concrete rational multiples k/D of ell exponentiate to the polynomial a^k."""
+    # immutable value object: copying (copy.copy / copy.deepcopy, e.g. a deep copy of an object array) yields the same scalar
+    def __copy__(self):
+        return self
+
+    def __deepcopy__(self, memo):
+        return self
+
 
     __slots__ = ("name", "a", "D")
 
@@ -779,6 +800,13 @@ class LogVal:
     The exponential homomorphism made explicit: + and - add coefficient vectors and
     multiply q; exp() is the polynomial prod a_i^(c_i D) * q. No transcendental function
     is ever evaluated."""
+    # immutable value object: copying (copy.copy / copy.deepcopy, e.g. a deep copy of an object array) yields the same scalar
+    def __copy__(self):
+        return self
+
+    def __deepcopy__(self, memo):
+        return self
+
 
     __slots__ = ("coef", "q")
 
